@@ -7,14 +7,16 @@ from ..loops import dotted
 from ..nf import NF, Scope, Poly, parse_expr
 from ..repo import Repo, loc, short, AnalysisError, positional_params, param_names, bind_call
 from ..cfg import CFG
+from ..sem import same_ingredients
 
 EXPLANATION = (
-    "Every tabular update function is reduced by def-use and callee inlining (td_error, greedy_policy) to a normal form and compared, "
-    "as a polynomial identity over the function's own parameters, with the textbook increment written as a spec expression that is "
-    "normalised by the same engine in the same module scope. The write footprint is decided syntactically (exactly one .at[...] "
-    "write, its index tuple equal to the index of the value read). R2 transfers the co-indexing obligation to the callers: the "
-    "`next_action` handed to Q-learning / SARSA derives from (epsilon-)greedy selection on the same table at the successor "
-    "observation. The Monte-Carlo fori_loop body is checked as three identities, Dyna-Q's model by its row footprint."
+    "The TD learners are read at loop level: one iteration of the training loop (from env.step to the next iteration) is evaluated per path "
+    "with the update helper inlined (td_error, greedy_policy, records), the step results and the acted-on observation / action as role "
+    "atoms. On every path the new table must be the old table with exactly one functional update at [S, A] whose increment equals, as a "
+    "polynomial identity, lr*(R + gamma*(1-D)*V_next - Q[S,A]) with the algorithm's V_next (greedy row maximum; value of an action selected "
+    "on the same table at the successor; other table's value of the own greedy action, each table learning on some path). It does not matter "
+    "whether the successor action is chosen in the loop or in the helper. Dyna-Q's planning loop is read the same way against the model "
+    "(s' = argmax P(.|s,a), r = R(s,a,s')). The Monte-Carlo fori_loop body is checked as three identities, Dyna-Q's model by its row footprint."
 )
 TRUSTED = ["jnp `.at[idx].add/.set` functional update semantics; jnp.argmax returns a maximiser; jax.lax.fori_loop(lo, hi, body, init)"]
 RULES = {
@@ -26,45 +28,6 @@ RULES = {
 }
 
 A = "rl_blox.algorithm."
-UPDATES = {
-    A + "q_learning._update_policy": {
-        "table": "q_table", "idx": ("observation", "action"),
-        "delta": "learning_rate * (reward + gamma * (1 - terminated) * q_table[next_observation, next_action] - q_table[observation, action])"},
-    A + "sarsa._update_policy": {
-        "table": "q_table", "idx": ("observation", "action"),
-        "delta": "learning_rate * (reward + gamma * (1 - terminated) * q_table[next_observation, next_action] - q_table[observation, action])"},
-    A + "double_q_learning._dql_update": {
-        "table": "q_table1", "idx": ("observation", "action"),
-        "delta": "learning_rate * (reward + gamma * (1 - terminated) * q_table2[next_observation, greedy_policy(q_table1, next_observation)] - q_table1[observation, action])"},
-    A + "dynaq.q_learning_update": {
-        "table": "q_table", "idx": ("obs", "act"),
-        "delta": "learning_rate * (reward + gamma * q_table[next_obs, greedy_policy(q_table, next_obs)] - q_table[obs, act])",
-        "delta_alt": "learning_rate * (reward + gamma * (1 - terminated) * q_table[next_obs, greedy_policy(q_table, next_obs)] - q_table[obs, act])"},
-}
-
-
-def _final_write(nf, fn, cfg):
-    """(return node, call `<T>.at[idx].add|set(v)`) that produces the returned table."""
-    rets = [n for n in cfg.nodes if n.kind == "stmt" and isinstance(n.ast, ast.Return) and n.ast.value is not None]
-    if len(rets) != 1:
-        raise AnalysisError(f"{fn.name}: expected one return")
-    r = rets[0]
-    v = r.ast.value
-    at = r.id
-    for _ in range(4):
-        if isinstance(v, ast.Name):
-            ds = cfg.defs_of(at, v.id)
-            if len(ds) != 1 or ds[0].kind != "assign":
-                raise AnalysisError(f"{fn.name}: returned table has no single definition (unrecognised idiom)")
-            v, at = ds[0].value, ds[0].node
-        else:
-            break
-    if not (isinstance(v, ast.Call) and isinstance(v.func, ast.Attribute) and v.func.attr in ("add", "set") and isinstance(v.func.value, ast.Subscript)
-            and isinstance(v.func.value.value, ast.Attribute) and v.func.value.value.attr == "at"):
-        raise AnalysisError(f"{fn.name}: returned value is not `<table>.at[idx].add/set(..)` (unrecognised idiom)")
-    return r, v, at
-
-
 def _at_writes(fn):
     out = []
     for n in ast.walk(fn):
@@ -74,133 +37,152 @@ def _at_writes(fn):
     return out
 
 
-def check_update(ck, repo, nf, q, spec):
-    fn = repo.func(q)
-    mi = fn._module
-    cfg = nf.cfg_of(fn)
-    where = loc(mi, fn)
-    params = param_names(fn)
-    for nm in (spec["table"],) + spec["idx"]:
-        ck.need(nm in params, f"{q}: parameter `{nm}` vanished")
-    env = {p: Poly.atom(p, {p}, {p}) for p in params}
-    sc = Scope(cfg, mi, env, q)
-    r, call, at = _final_write(nf, fn, cfg)
-    writes = _at_writes(fn)
-    ck.ob("R1-footprint", q, "single-write", len(writes) == 1, f"{len(writes)} `.at[...]` write(s)", "" if len(writes) == 1 else "an update must change exactly one table entry", where)
-    tbl = call.func.value.value.value
-    idx = call.func.value.slice
-    # canonical table and index at the write (locals / index tuples resolved through reaching definitions; a redefined parameter
-    # shows up as a different normal form)
-    idx_txt, _ = nf._slice(idx, sc, at, 0)
-    okt = nf.poly(tbl, sc, at).canon() == spec["table"] and idx_txt == ", ".join(spec["idx"])
-    ck.ob("R1-footprint", q, "write-index", okt, f"`{short(call.func.value)}` written", "" if okt else f"the entry written is not {spec['table']}[{', '.join(spec['idx'])}] (the visited state-action entry of the updated table)", loc(mi, call))
-    val = nf.poly(call.args[0], sc, at) if call.args else Poly({})
-    read = nf.poly(parse_expr(f"{spec['table']}[{', '.join(spec['idx'])}]"), Scope(None, mi, env, q), None)
-    delta = val if call.func.attr == "add" else val - read
-    wants = [spec["delta"]] + ([spec["delta_alt"]] if "delta_alt" in spec else [])
-    ok = False
-    for w in wants:
-        want = nf.poly(parse_expr(w), Scope(None, mi, env, q), None)
-        if delta == want:
-            ok = True
-    why = ""
-    if not ok:
-        want = nf.poly(parse_expr(wants[0]), Scope(None, mi, env, q), None)
-        diff = delta - want
-        why = f"increment differs from the textbook one by `{diff.canon()[:160]}`"
-    ck.ob("R1-update-formula", q, "increment", ok, f"increment = {delta.canon()[:170]}", why, loc(mi, call))
+
+# ---- loop-level reading of the TD learners -------------------------------------------------------------------------------------------
+TD_LOOPS = {
+    A + "q_learning.train_q_learning": {"tables": ["q_table"], "bootstrap": "greedy"},
+    A + "sarsa.train_sarsa": {"tables": ["q_table"], "bootstrap": "on-policy"},
+    A + "double_q_learning.train_double_q_learning": {"tables": ["q_table1", "q_table2"], "bootstrap": "double"},
+    A + "dynaq.train_dynaq": {"tables": ["q_table"], "bootstrap": "greedy", "mask_optional": True, "first_update_only": True},
+}
 
 
-def _callers_coindex(ck, repo, nf):
-    # Q-learning / SARSA: next_action selected on the same table at the successor observation
-    for tq, uq, sel in ((A + "q_learning.train_q_learning", A + "q_learning._update_policy", "greedy_policy"),
-                        (A + "sarsa.train_sarsa", A + "sarsa._update_policy", "epsilon_greedy_policy")):
-        fn = repo.func(tq)
-        mi = fn._module
-        cfg = nf.cfg_of(fn)
-        ufn = repo.func(uq)
-        found = False
-        for n in cfg.nodes:
-            if n.ast is None or n.kind != "stmt":
-                continue
-            for c in ast.walk(n.ast):
-                if isinstance(c, ast.Call) and isinstance(c.func, ast.Name) and repo.resolve_name(mi, c.func.id) == uq:
-                    found = True
-                    b = bind_call(ufn, c)
-                    na, tb, no = b.get("next_action"), b.get("q_table"), b.get("next_observation")
-                    ok, why = False, "next_action is not a variable"
-                    if isinstance(na, ast.Name):
-                        ds = cfg.defs_of(n.id, na.id)
-                        if len(ds) == 1 and ds[0].kind == "assign" and isinstance(ds[0].value, ast.Call) and isinstance(ds[0].value.func, ast.Name):
-                            sc = ds[0].value
-                            sq = repo.resolve_name(mi, sc.func.id)
-                            okf = sq == f"rl_blox.blox.value_policy.{sel}"
-                            a0 = sc.args[0] if sc.args else None
-                            a1 = sc.args[1] if len(sc.args) > 1 else None
-                            same_tbl = a0 is not None and tb is not None and ast.unparse(a0) == ast.unparse(tb) and \
-                                cfg.reaching()[ds[0].node].get(dotted(a0)) == cfg.reaching()[n.id].get(dotted(tb))
-                            same_row = a1 is not None and no is not None and ast.unparse(a1) == ast.unparse(no)
-                            ok = okf and same_tbl and same_row
-                            why = "" if ok else (f"successor action chosen by `{short(sc, 60)}`: " + ("wrong selection rule; " if not okf else "") + ("not on the table being updated; " if not same_tbl else "") + ("not at the successor observation" if not same_row else ""))
-                        else:
-                            why = "next_action has no single definition by a policy call"
-                    ck.ob("R2-co-indexing", tq, "next-action-provenance", ok, f"`{short(c, 70)}`", why, loc(mi, c))
-                    # role transfer: arguments in signature order
-                    for role in ("observation", "action", "reward", "next_observation", "terminated", "gamma", "learning_rate"):
-                        a = b.get(role)
-                        okr = a is not None and dotted(a).split(".")[-1].replace("_", "") .startswith(role.replace("_", "")[:4]) if role not in ("gamma", "learning_rate") else (a is not None and dotted(a) == role)
-                        if role in ("gamma", "learning_rate"):
-                            ck.ob("R2-co-indexing", tq, f"arg:{role}", okr, f"{role} <- {short(a) if a is not None else None}", "" if okr else f"`{role}` receives a different quantity", loc(mi, c))
-        ck.need(found, f"{tq}: update call not found")
-    # double Q-learning: per path through one iteration exactly one table changes, to _dql_update(.., <that table>, <the other>, ..),
-    # and each table is the updated one on some path (path evaluation: call sites may be merged, tables passed through locals)
+def _at_update(nf, p):
+    """(base poly, index text, delta poly relative to the old entry) when ``p`` is `B.at[idx].add(v)` / `B.at[idx].set(v)`, else None."""
+    m = nf.meta.get(p.single_atom() or "")
+    if not m or "at" not in m or m["at"]["op"] not in ("add", "set") or len(m.get("args", [])) != 1 or m.get("kws"):
+        return None
+    return m["at"]["base"], m["at"]["index"], m["at"]["op"], m["args"][0]
+
+
+def _td_loops(ck, repo, nf):
+    """The training loop and its update helper are read together: on every path of one iteration (from env.step to the next iteration)
+    the new table is the old table with exactly one entry changed - the entry (observation acted on, action passed to env.step) - by
+    lr * (r + gamma * (1 - terminated) * V_next - Q[s, a]), with r / s' / terminated the results of that step."""
     from ..sympath import enumerate_paths, PathEval
-    from ..loops import find_env_loop
-    tq, uq = A + "double_q_learning.train_double_q_learning", A + "double_q_learning._dql_update"
-    fn = repo.func(tq)
-    mi = fn._module
-    ufn = repo.func(uq)
-    up = positional_params(ufn)
-    ck.need(len(up) >= 3, f"{uq}: signature changed (anchor vanished)")
-    L = find_env_loop(repo, tq)
-    cfg = nf.cfg_of(fn)
-    hdr = cfg.stmt_node[id(cfg.nodes[L.outer_header].ast)] if hasattr(L, "outer_header") else None
-    ck.need(hdr is not None, f"{tq}: training loop not found")
-    T1, T2 = "q_table1", "q_table2"
-    ck.need(T1 in param_names(fn) and T2 in param_names(fn), f"{tq}: table parameters renamed (anchor vanished)")
-    env0 = {T1: Poly.atom("Q1", {"Q1"}, {"Q1"}), T2: Poly.atom("Q2", {"Q2"}, {"Q2"})}
-    nfp = NF(repo, inline_depth=1, inline_calls=False)
-    try:
-        paths = enumerate_paths(cfg, hdr, {hdr}, first_label=True, max_paths=5000)
-    except RuntimeError:
-        raise AnalysisError(f"{tq}: too many paths through one iteration")
-    updated, sigs = set(), set()
-    for pth in paths:
-        pe = PathEval(nfp, cfg, mi, tq, env0).run(pth[:-1])
-        v1, v2 = pe.env[T1].canon(), pe.env[T2].canon()
-        sig = (v1, v2)
-        if sig in sigs:
-            continue
-        sigs.add(sig)
-        ch1, ch2 = v1 != "Q1", v2 != "Q2"
-        where = loc(mi, fn)
-        if ch1 == ch2:
-            ck.ob("R2-co-indexing", tq, "one-table-per-step", False, f"q_table1' = {v1[:60]}, q_table2' = {v2[:60]}", "each step must update exactly one of the two tables", where)
-            continue
-        new, own, other = (v1, "Q1", "Q2") if ch1 else (v2, "Q2", "Q1")
-        a = nfp.meta.get(new, {})
-        isup = new.startswith("_dql_update(") or new.startswith(uq + "(") or a.get("fn", "").endswith("_dql_update")
-        if not isup:
-            raise AnalysisError(f"{tq}: new table value `{new[:80]}` is not a _dql_update(...) result (unrecognised idiom)")
-        args = [x.canon() for x in a.get("args", [])]
-        kws = {k: v.canon() for k, v in a.get("kws", {}).items()}
-        bound = dict(zip(up, args))
-        bound.update(kws)
-        ok = bound.get(up[1]) == own and bound.get(up[2]) == other
-        updated.add(own)
-        ck.ob("R2-co-indexing", tq, f"tables:{'q_table1' if ch1 else 'q_table2'}", ok, f"{'q_table1' if ch1 else 'q_table2'}' = _dql_update(.., {bound.get(up[1])}, {bound.get(up[2])}, ..)",
-              "" if ok else "the table that receives the result must be the first table argument (selection / update) and the evaluation table the other one", where)
-    ck.ob("R2-co-indexing", tq, "two-call-sites", updated == {"Q1", "Q2"}, f"tables updated on some path: {sorted(updated)}", "" if updated == {"Q1", "Q2"} else "double Q-learning must update either table (each on some path)", loc(mi, fn))
+    from ..loops import find_env_loop, strip_wrappers
+    n_loops = 0
+    for tq, spec in TD_LOOPS.items():
+        L = find_env_loop(repo, tq)
+        cfg, mi, fn = L.cfg, L.mi, L.fn
+        params = param_names(fn)
+        for t in spec["tables"] + ["gamma", "learning_rate"]:
+            ck.need(t in params, f"{tq}: parameter `{t}` vanished (anchor)")
+        a = strip_wrappers(L.step_call.args[0]) if L.step_call.args else None
+        ck.need(isinstance(a, ast.Name), f"{tq}: action passed to env.step is not a variable (unrecognised form)")
+        avar = a.id
+        ovars = set()
+        for n in cfg.nodes:
+            if n.kind == "stmt" and isinstance(n.ast, ast.Assign) and L.is_reset_call(n.ast.value) and isinstance(n.ast.targets[0], (ast.Tuple, ast.List)) and isinstance(n.ast.targets[0].elts[0], ast.Name):
+                ovars.add(n.ast.targets[0].elts[0].id)
+        ck.need(len(ovars) == 1, f"{tq}: observation variable not identified (reset targets {sorted(ovars)})")
+        ovar = ovars.pop()
+        nvar, rvar, dvar = L.pos.get(0), L.pos.get(1), L.pos.get(2)
+        ck.need(nvar and rvar and dvar, f"{tq}: step results are discarded")
+        env0 = {p_: Poly.atom(p_, {p_}, {p_}) for p_ in params}
+        env0.update({ovar: Poly.atom("S"), avar: Poly.atom("A"), nvar: Poly.atom("N"), rvar: Poly.atom("R"), dvar: Poly.atom("D")})
+        for t in spec["tables"]:
+            env0[t] = Poly.atom(t)
+        succ = [s_ for s_, _l in cfg.nodes[L.step_node].succ]
+        ck.need(len(succ) == 1, f"{tq}: env.step statement has {len(succ)} successors")
+        try:
+            paths = enumerate_paths(cfg, succ[0], {L.loop_header, cfg.exit}, max_paths=4000)
+        except RuntimeError:
+            raise AnalysisError(f"{tq}: too many paths through one iteration")
+        ssc = Scope(None, mi, env0, tq)
+
+        def want_delta(own, other, nxt, masked):
+            own_p, oth_p = env0[own], env0[other]
+            sc_ = Scope(None, mi, {**env0, "OWN": own_p, "OTH": oth_p, "NEXTA": nxt}, tq)
+            m_ = "(1 - D) * " if masked else ""
+            return nf.poly(parse_expr(f"learning_rate * (R + gamma * {m_}OTH[N, NEXTA] - OWN[S, A])"), sc_, None)
+        seen, changed_tables, pending = set(), set(), []
+        n_loops += 1
+        where = loc(mi, L.step_stmt)
+        for pth in paths:
+            pe = PathEval(nf, cfg, mi, tq, env0)
+            first = {}
+            for nid, lab in pth:
+                before = {t: pe.env[t] for t in spec["tables"]}
+                pe.step(nid, lab)
+                for t in spec["tables"]:
+                    if pe.env[t] != before[t] and t not in first:
+                        first[t] = (pe.env[t], dict(pe.env), nid)
+            finals = {t: (first[t][0] if spec.get("first_update_only") and t in first else pe.env[t]) for t in spec["tables"]}
+            sig = tuple(finals[t].canon() for t in spec["tables"])
+            ends_in_next_iteration = pth[-1][0] == L.loop_header
+            key = (sig, "")
+            if key in seen:
+                continue
+            seen.add(key)
+            changed = [t for t in spec["tables"] if finals[t] != env0[t]]
+            if len(changed) != 1:
+                if not changed and not ends_in_next_iteration:
+                    continue     # leaving the routine without learning from the last step is C11's business
+                pending.append((changed, cfg.describe_path([x for x, _ in pth][:12])))
+                continue
+            own = changed[0]
+            other = own if len(spec["tables"]) == 1 else next(t for t in spec["tables"] if t != own)
+            changed_tables.add(own)
+            au = _at_update(nf, finals[own])
+            if au is None:
+                raise AnalysisError(f"{tq}: new value of `{own}` `{finals[own].canon()[:100]}` is not a single-entry update (unrecognised form)")
+            base, idx, op, val = au
+            if base != env0[own] and _at_update(nf, base) is not None:
+                ck.ob("R1-footprint", tq, f"single-write:{own}", False, f"{finals[own].canon()[:120]}", "one update changes more than one table entry", where)
+                continue
+            ok_fp = base == env0[own] and idx == "S, A"
+            if not ok_fp and not (base == env0[own] and set(_names(idx)) <= {"S", "A", "N"}):
+                raise AnalysisError(f"{tq}: `{own}` is updated at `{idx[:60]}` of `{base.canon()[:40]}` (unrecognised form)")
+            ck.ob("R1-footprint", tq, f"write-index:{own}", ok_fp, f"{own}.at[{idx}].{op}(...)", "" if ok_fp else "the entry written is not [observation acted on, action passed to env.step] of the table being updated (exactly one entry changes per step)", where)
+            read = nf.poly(parse_expr("OWN[S, A]"), Scope(None, mi, {**env0, "OWN": env0[own]}, tq), None)
+            delta = val if op == "add" else val - read
+            # the bootstrap action
+            if spec["bootstrap"] in ("greedy", "double"):
+                row = nf.poly(parse_expr("OWN[N]"), Scope(None, mi, {**env0, "OWN": env0[own]}, tq), None)
+                cands = [nf._mkcall("argmax", [row], {})]
+            else:
+                # SARSA: the value of a supplied next action - an action selected (epsilon-greedily) on this table at the successor observation
+                cands, offrow = [], []
+                for v in (first.get(own, (None, {}, None))[1] or pe.env).values():
+                    m_ = nf.meta.get(v.single_atom() or "", {})
+                    if m_.get("fn", "").endswith("greedy_policy") and len(m_.get("args", [])) >= 2:
+                        (cands if (m_["args"][0] == env0[own] and m_["args"][1] == env0[nvar]) else offrow).append(v)
+                for c_ in offrow:
+                    if want_delta(own, other, c_, True) == delta:
+                        m_ = nf.meta[c_.single_atom()]
+                        ck.ob("R2-co-indexing", tq, "next-action-provenance", False, f"bootstrap action = {c_.canon()[:100]}",
+                              "the successor action whose value is bootstrapped was not selected on the updated table at the successor observation", where)
+                if not cands:
+                    cands = [Poly.atom("<no action selected on this table at the successor observation>")]
+            wants = []
+            for c_ in cands:
+                wants.append((want_delta(own, other, c_, True), c_))
+                if spec.get("mask_optional"):
+                    wants.append((want_delta(own, other, c_, False), c_))
+            hit = next(((w, c_) for w, c_ in wants if w == delta), None)
+            if hit is None and spec["bootstrap"] == "on-policy" and any(want_delta(own, other, c_, True) == delta for c_ in offrow):
+                continue
+            if hit is None and not same_ingredients(delta, wants[0][0], ("argmax", "epsilon_greedy_policy", "epsilon", "key", "subkey", "jax", "random", "split")):
+                raise AnalysisError(f"{tq}: increment `{delta.canon()[:120]}` (unrecognised form)")
+            ck.ob("R1-update-formula", tq, f"increment:{own}", hit is not None, f"increment = {delta.canon()[:170]}",
+                  "" if hit is not None else f"increment differs from the textbook one `{wants[0][0].canon()[:150]}` by `{(delta - wants[0][0]).canon()[:150]}`", where)
+        if changed_tables:
+            for changed, wit in pending:
+                ck.ob("R1-footprint", tq, "one-table-per-step", False, f"tables changed on a path of one iteration: {changed}", "every step must update exactly one table", where, wit)
+        if not changed_tables:
+            raise AnalysisError(f"{tq}: no path of one iteration rebinds {spec['tables']} (tables kept in another structure: unrecognised form)")
+        if spec["bootstrap"] == "double":
+            ok2 = changed_tables == set(spec["tables"])
+            ck.ob("R2-co-indexing", tq, "both-tables-learn", ok2, f"tables updated on some path: {sorted(changed_tables)}", "" if ok2 else "double Q-learning must update either table (each on some path)", where)
+        else:
+            ck.ob("R1-footprint", tq, "learns", bool(changed_tables), f"tables updated on some path: {sorted(changed_tables)}", "" if changed_tables else "no path of an iteration updates the table", where)
+    ck.floor("td-loops", n_loops, 4)
+
+
+def _names(txt):
+    import re
+    return re.findall(r"[A-Za-z_][A-Za-z_0-9]*", txt)
 
 
 def _monte_carlo(ck, repo, nf):
@@ -209,6 +191,9 @@ def _monte_carlo(ck, repo, nf):
     mi = fn._module
     body = next((n for n in fn.body if isinstance(n, ast.FunctionDef)), None)
     ck.need(body is not None, f"{q}: loop body function not found (anchor vanished)")
+    uses = [c for c in ast.walk(fn) if isinstance(c, ast.Call) and any(isinstance(a_, ast.Name) and a_.id == body.name for a_ in c.args)]
+    ck.need(len(uses) == 1 and dotted(uses[0].func).endswith("fori_loop") and len(uses[0].args) == 4 and isinstance(uses[0].args[2], ast.Name) and uses[0].args[2].id == body.name,
+            f"{q}: the backward pass is not a jax.lax.fori_loop(lo, hi, body, init) (unrecognised form)")
     body._module = mi
     cfg = nf.cfg_of(body)
     bp = positional_params(body)
@@ -264,35 +249,67 @@ def _monte_carlo(ck, repo, nf):
 
 
 def _dynaq(ck, repo, nf):
-    # both call sites of q_learning_update bind the roles in signature order
-    uq = A + "dynaq.q_learning_update"
-    ufn = repo.func(uq)
-    for tq, want in ((A + "dynaq.train_dynaq", {"obs": "obs", "act": "act", "reward": "reward", "next_obs": "next_obs", "q_table": "q_table", "gamma": "gamma", "learning_rate": "learning_rate"}),
-                     (A + "dynaq.planning", {"obs": "obs", "act": "act", "reward": "reward", "next_obs": "next_obs", "q_table": "q_table", "gamma": "gamma", "learning_rate": "learning_rate"})):
-        fn = repo.func(tq)
-        mi = fn._module
-        hit = 0
-        for c in ast.walk(fn):
-            if isinstance(c, ast.Call) and isinstance(c.func, ast.Name) and repo.resolve_name(mi, c.func.id) == uq:
-                hit += 1
-                b = bind_call(ufn, c)
-                got = {k: dotted(v) for k, v in b.items()}
-                ok = got == want
-                ck.ob("R4-dyna-q", tq, "update-call-roles", ok, f"`{short(c, 80)}`", "" if ok else f"arguments {got} do not match the roles {want}", loc(mi, c))
-        ck.ob("R4-dyna-q", tq, "uses-greedy-successor-update", hit == 1, f"{hit} call(s) of q_learning_update", "" if hit == 1 else "Dyna-Q must apply the greedy-successor update here", loc(mi, fn))
-    # planning: replayed successor = argmax of the model row, reward = model mean reward of that transition
-    fn = repo.func(A + "dynaq.planning")
+    # planning: every replayed transition (s, a) drawn from the visited pairs is completed by the model - s' = argmax P(.|s,a),
+    # r = R(s,a,s') - and learned from with the greedy-successor update (the direct update of the real transition is read at loop
+    # level by _td_loops)
+    from ..sympath import enumerate_paths, PathEval
+    pq = A + "dynaq.planning"
+    fn = repo.func(pq)
     mi = fn._module
     cfg = nf.cfg_of(fn)
-    sc = Scope(cfg, mi, {p: Poly.atom(p, {p}, {p}) for p in param_names(fn)}, A + "dynaq.planning")
-    for c in ast.walk(fn):
-        if isinstance(c, ast.Call) and isinstance(c.func, ast.Name) and c.func.id == "q_learning_update":
-            at = cfg.node_of(c).id
-            b = bind_call(ufn, c)
-            nx = nf.poly(b["next_obs"], sc, at).canon()
-            rw = nf.poly(b["reward"], sc, at).canon()
-            ok = nx.startswith("argmax(model_transition[") and rw.startswith("model_reward[") and nx in rw
-            ck.ob("R4-dyna-q", A + "dynaq.planning", "replayed-transition", ok, f"next_obs = {nx[:70]}; reward = {rw[:90]}", "" if ok else "replayed transitions must come from the learned model: s' = argmax P(.|s,a), r = R(s,a,s')", loc(mi, c))
+    P = param_names(fn)
+    ck.need(len(P) >= 9 and P[0] == "model_transition" and P[1] == "model_reward" and "q_table" in P, f"{pq}: signature changed (anchor vanished)")
+    MT, MR = P[0], P[1]
+    loops = [n for n in cfg.nodes if n.kind == "for"]
+    ck.need(len(loops) == 1, f"{pq}: expected one planning loop (unrecognised form)")
+    lp = loops[0]
+    env0 = {p_: Poly.atom(p_, {p_}, {p_}) for p_ in P}
+    paths = enumerate_paths(cfg, lp.id, {lp.id}, first_label=True)
+    ck.need(len(paths) >= 1, f"{pq}: loop body not readable")
+    where = loc(mi, lp.ast)
+    for pth in paths:
+        tg = lp.ast.target
+        ck.need(isinstance(tg, (ast.Tuple, ast.List)) and len(tg.elts) == 2 and all(isinstance(x, ast.Name) for x in tg.elts), f"{pq}: the planning loop does not iterate over (observation, action) pairs (unrecognised form)")
+        pe = PathEval(nf, cfg, mi, pq, env0)
+        Sp, Ap = Poly.atom("S_"), Poly.atom("A_")
+        for k_, (nid, lab) in enumerate(pth[:-1]):
+            pe.step(nid, lab)
+            if k_ == 0:
+                pe.env[tg.elts[0].id], pe.env[tg.elts[1].id] = Sp, Ap
+        new = pe.env["q_table"]
+        au = _at_update(nf, new)
+        if au is None:
+            raise AnalysisError(f"{pq}: new table `{new.canon()[:100]}` is not a single-entry update (unrecognised form)")
+        base, idx, op, val = au
+        ck.need(base == env0["q_table"], f"{pq}: update of `{base.canon()[:40]}` (unrecognised form)")
+        okidx = idx == "S_, A_"
+        if not okidx and not set(_names(idx)) <= {"S_", "A_"}:
+            raise AnalysisError(f"{pq}: update index `{idx[:60]}` (unrecognised form)")
+        ck.ob("R4-dyna-q", pq, "replayed-write-index", okidx, f"q_table.at[{idx}]", "" if okidx else "the replayed update must change the entry of the replayed (observation, action) pair", where)
+        sce = Scope(None, mi, {**env0, "S_": Sp, "A_": Ap}, pq)
+        Np = nf._mkcall("argmax", [nf.poly(parse_expr(f"{MT}[S_, A_]"), sce, None)], {})
+        sce2 = Scope(None, mi, {**env0, "S_": Sp, "A_": Ap, "N_": Np}, pq)
+        Rp = nf.poly(parse_expr(f"{MR}[S_, A_, N_]"), sce2, None)
+        row = nf.poly(parse_expr("q_table[N_]"), sce2, None)
+        greedy = nf._mkcall("argmax", [row], {})
+        sce3 = Scope(None, mi, {**env0, "S_": Sp, "A_": Ap, "N_": Np, "R_": Rp, "G_": greedy}, pq)
+        read = nf.poly(parse_expr("q_table[S_, A_]"), sce3, None)
+        delta = val if op == "add" else val - read
+        want = nf.poly(parse_expr("learning_rate * (R_ + gamma * q_table[N_, G_] - q_table[S_, A_])"), sce3, None)
+        ok = delta == want
+        if not ok and not same_ingredients(delta, want):
+            raise AnalysisError(f"{pq}: replayed increment `{delta.canon()[:120]}` (unrecognised form)")
+        ck.ob("R4-dyna-q", pq, "replayed-transition", ok, f"increment = {delta.canon()[:150]}", "" if ok else f"replayed transitions must come from the learned model (s' = argmax P(.|s,a), r = R(s,a,s')) and be learned from with the greedy-successor update: expected `{want.canon()[:140]}`", where)
+        # the replayed pair is a visited (observation, action) pair: both drawn with the same index from the two buffers
+        it = nf.poly(lp.ast.iter, Scope(cfg, mi, env0, pq), lp.id).canon()
+        okp = P[2] in it and P[3] in it
+        if not okp:
+            raise AnalysisError(f"{pq}: planning loop iterates over `{it[:80]}` (unrecognised form)")
+    # train_dynaq plans after learning from the real transition
+    tq = A + "dynaq.train_dynaq"
+    tfn = repo.func(tq)
+    hits = [c for c in ast.walk(tfn) if isinstance(c, ast.Call) and isinstance(c.func, (ast.Name, ast.Attribute)) and repo.resolve_expr(tfn._module, c.func) == pq]
+    ck.ob("R4-dyna-q", tq, "plans-from-model", len(hits) == 1, f"{len(hits)} call(s) of planning", "" if len(hits) == 1 else "Dyna-Q replays model transitions once per real step", loc(tfn._module, tfn))
     # model_update footprint
     q = A + "dynaq.model_update"
     fn = repo.func(q)
@@ -344,13 +361,10 @@ def _td_error(ck, repo, nf):
 
 def run(ck, repo: Repo, tier: str):
     nf = NF(repo, inline_depth=4)
-    for q, spec in UPDATES.items():
-        check_update(ck, repo, nf, q, spec)
-    ck.floor("update-functions", len(UPDATES), 4)
-    _td_error(ck, repo, nf)
-    _callers_coindex(ck, repo, nf)
-    _monte_carlo(ck, repo, nf)
-    _dynaq(ck, repo, nf)
+    ck.guard(_td_loops, ck, repo, nf)
+    ck.guard(_td_error, ck, repo, nf)
+    ck.guard(_monte_carlo, ck, repo, nf)
+    ck.guard(_dynaq, ck, repo, nf)
 
 
 _Q, _S, _D, _M, _Y = "rl_blox/algorithm/q_learning.py", "rl_blox/algorithm/sarsa.py", "rl_blox/algorithm/double_q_learning.py", "rl_blox/algorithm/monte_carlo.py", "rl_blox/algorithm/dynaq.py"
@@ -359,13 +373,13 @@ MUTANTS = [
     {"id": "c14-q-write-next", "file": _Q, "rule": "R1", "find": "    q_table = q_table.at[observation, action].add(learning_rate * error)", "replace": "    q_table = q_table.at[next_observation, action].add(learning_rate * error)"},
     {"id": "c14-q-no-mask", "file": _Q, "rule": "R1", "find": "    next_val = (1 - terminated) * q_table[next_observation, next_action]", "replace": "    next_val = q_table[next_observation, next_action]"},
     {"id": "c14-q-sign", "file": "rl_blox/util/error_functions.py", "rule": "R1", "find": "    return reward + gamma * next_value - value", "replace": "    return reward + gamma * next_value + value"},
-    {"id": "c14-q-greedy-at-obs", "file": _Q, "rule": "R2", "find": "        next_action = greedy_policy(q_table, next_observation)", "replace": "        next_action = greedy_policy(q_table, observation)"},
+    {"id": "c14-q-greedy-at-obs", "file": _Q, "rule": "R", "find": "        next_action = greedy_policy(q_table, next_observation)", "replace": "        next_action = greedy_policy(q_table, observation)"},
     {"id": "c14-q-two-writes", "file": _Q, "rule": "R1", "find": "    q_table = q_table.at[observation, action].add(learning_rate * error)\n", "replace": "    q_table = q_table.at[observation, action].add(learning_rate * error)\n    q_table = q_table.at[next_observation, next_action].add(0.0 * error)\n"},
     {"id": "c14-sarsa-greedy-next", "file": _S, "rule": "R2", "find": "        next_action = epsilon_greedy_policy(\n            q_table, next_observation, epsilon, subkey\n        )", "replace": "        next_action = epsilon_greedy_policy(\n            q_table, observation, epsilon, subkey\n        )"},
     {"id": "c14-sarsa-lr-gamma-swapped", "file": _S, "rule": "R", "find": "            gamma,\n            learning_rate,\n            terminated,\n        )", "replace": "            learning_rate,\n            gamma,\n            terminated,\n        )"},
     {"id": "c14-dql-same-table-eval", "file": _D, "rule": "R1", "find": "    next_val = (1 - terminated) * q_table2[next_observation, next_action]", "replace": "    next_val = (1 - terminated) * q_table1[next_observation, next_action]"},
     {"id": "c14-dql-select-at-obs", "file": _D, "rule": "R1", "find": "    next_action = greedy_policy(q_table1, next_observation)", "replace": "    next_action = greedy_policy(q_table1, observation)"},
-    {"id": "c14-dql-callsite-same-tables", "file": _D, "rule": "R2", "find": "                subkey2,\n                q_table2,\n                q_table1,", "replace": "                subkey2,\n                q_table2,\n                q_table2,"},
+    {"id": "c14-dql-callsite-same-tables", "file": _D, "rule": "R", "find": "                subkey2,\n                q_table2,\n                q_table1,", "replace": "                subkey2,\n                q_table2,\n                q_table2,"},
     {"id": "c14-mc-forward", "file": _M, "rule": "R3", "find": "        idx = ep_len - 1 - i", "replace": "        idx = i"},
     {"id": "c14-mc-count-after", "file": _M, "rule": "R3", "find": "            1.0 / n_visits[obs, act] * pred_error", "replace": "            1.0 / (n_visits[obs, act] + 1) * pred_error"},
     {"id": "c14-mc-return-undiscounted", "file": _M, "rule": "R3", "find": "        ep_return = rew + gamma * ep_return", "replace": "        ep_return = rew + ep_return"},
